@@ -649,3 +649,8 @@ VARIANTS += [
 VARIANTS += [
     V("C10", "relocated module looked up by its last name again", "stubs_generator/_generate_stubs.py", "            qname=module.id.replace(\"/\", \".\"),\n            is_module=True,", "            qname=\"\",\n            is_module=True,", "C10.WRITE-MODE"),
 ]
+VARIANTS += [
+    V("C03", "re-exporting modules found by the tail of the qualified name again", VIS,
+      "                    if qname in {reexport_name_backward, f\"{mod.id.replace('/', '.')}.{reexport_name_backward}\"}:\n                        reexported_by.add(mod)",
+      "                    if True:\n                        reexported_by.add(mod)", "C03.MOVE"),
+]
